@@ -157,7 +157,9 @@ class iter_segments:
                   type=OneOf(None, 'PT_LOAD', 'PT_DYNAMIC', 'PT_NOTE'))
     requires = INV + ["self.header.e_shoff <= self.stream_len"]
     yield_shape = SegRet
-    loops = {0: dict(invariant=["$n <= $k", "type is not None or $n == $k"])}
+    # step: every index is visited and its segment is yielded exactly when no type is asked for or its type is the one asked for
+    loops = {0: dict(invariant=["$n <= $k", "type is not None or $n == $k"], ghost_step={"$n0": "$n"},
+                     step=["(type is None or segment.header.p_type == type) == ($n == $n0 + 1)", "$n == $n0 or $n == $n0 + 1"])}
     each_yield = ["$k0 < nseg(self)",
                   "value.header == P('Elf_Phdr', self.stream.B, self.header.e_phoff + $k0 * self.header.e_phentsize)",
                   "type is None or value.header.p_type == type",
